@@ -6,6 +6,9 @@ use std::panic::{self, AssertUnwindSafe};
 
 mod codec;
 mod scalar;
+mod polyfns;
+mod vecfns;
+mod schemefns;
 
 fn answer_scalar(f: scalar::ScalarFn, args: &[&str]) -> Option<String> {
     let xs: Option<Vec<i64>> = args.iter().map(|s| s.parse::<i64>().ok()).collect();
@@ -64,7 +67,18 @@ fn answer(line: &str) -> String {
     } else if let Some(f) = scalar::lookup(name) {
         if args.len() != scalar::arity(name) { None } else { answer_scalar(f, args) }
     } else {
-        None
+        let parts: Vec<&str> = name.split("::").collect();
+        match parts.as_slice() {
+            ["poly", f] => polyfns::poly_fn("poly", f, args),
+            ["ntt", f] => polyfns::poly_fn("ntt", f, args),
+            ["poly", set, f] => polyfns::poly_set_fn(set, f, args),
+            ["polyvec", lvl, f] => vecfns::vec_fn(lvl, f, args),
+            ["packing", set, f] => vecfns::pack_fn(set, f, args),
+            ["fips202", f] => schemefns::fips_fn(f, args),
+            ["sign", set, f] => schemefns::sign_fn(set, f, args),
+            [api, ty, f] => schemefns::api_fn(api, &format!("{}::{}", ty, f), args),
+            _ => None,
+        }
     };
     r.unwrap_or_else(|| "bad-request".to_string())
 }
